@@ -51,40 +51,35 @@ theorem np_basicAuthToken (creds : Bytes) : NoPanic (basicAuthToken creds) := by
   unfold basicAuthToken
   go_np
 
-theorem np_streamReadChunk (cap : Nat) (hcap : Gen.C06.streamReadMinBufferSize ≤ cap) (openChunk : Bytes → Option Bytes) (s : Bytes) :
-    NoPanic (streamReadChunk cap openChunk s) := by
-  unfold streamReadChunk readFull
+theorem np_streamRead (cap : Nat) (hcap : Gen.C06.streamReadMinBufferSize ≤ cap) (sticky : Option Err)
+    (openChunk : Bytes → Option Bytes) (s : Bytes) : NoPanic (streamRead cap sticky openChunk s) := by
+  unfold streamRead readFull
   simp only [Gen.C06.streamReadMinBufferSize, Gen.C06.tagSize] at hcap ⊢
   split
   · omega
   · split
-    · rename_i hs
-      simp only [ok_bind]
-      split
-      · simp
-      · rename_i pt _
-        have hl : 2 ≤ (List.take 2 pt ++ List.drop 2 (List.take 18 s)).length := by
-          simp only [List.length_append, List.length_take, List.length_drop]; omega
-        rw [be16_of_le hl]
-        simp only [ok_bind]
-        have hlt := be16val_lt (List.take 2 pt ++ List.drop 2 (List.take 18 s))
-        split
-        · simp
-        · split
-          · omega
-          · split
-            · simp only [ok_bind]
-              split <;> simp
-            · split <;> simp
-    · split <;> simp
-
-theorem np_streamRead (cap : Nat) (hcap : Gen.C06.streamReadMinBufferSize ≤ cap) (sticky : Option Err)
-    (openChunk : Bytes → Option Bytes) (s : Bytes) : NoPanic (streamRead cap sticky openChunk s) := by
-  unfold streamRead
-  split
-  · omega
-  · split
     · simp
-    · exact np_streamReadChunk cap hcap openChunk s
+    · split
+      · omega
+      · split
+        · rename_i hs
+          simp only [ok_bind]
+          split
+          · simp
+          · rename_i pt _
+            have hl : 2 ≤ (List.take 2 pt ++ List.drop 2 (List.take 18 s)).length := by
+              simp only [List.length_append, List.length_take, List.length_drop]; omega
+            rw [be16_of_le hl]
+            simp only [ok_bind]
+            have hlt := be16val_lt (List.take 2 pt ++ List.drop 2 (List.take 18 s))
+            split
+            · simp
+            · split
+              · omega
+              · split
+                · simp only [ok_bind]
+                  split <;> simp
+                · split <;> simp
+        · split <;> simp
 
 end SSV.Parsers.Proofs
